@@ -15,7 +15,7 @@ EXTRACTS = ["C17"]
 THEOREMS = [
     "C17_merge_accepts", "C17_merge_extras_union", "C17_merge_comm", "C17_merge_assoc",
     "C17_merge_spelling", "C17_merge_refuses_other_project", "C17_reduce_keeps_bounds",
-    "C17_reduce_one_requirement_per_project"]
+    "C17_reduce_one_requirement_per_project", "C17_names_differing_in_separators_or_case_are_one_project"]
 RULE = ("pairs/lists of requirements parsed by req_compile.utils.parse_requirement from generated "
         "strings (7 operators + wildcards, extras, 6 markers, respelled names); each is merged by "
         "the real merge_requirements/reduce_requirements and by the extracted Coq model; result "
